@@ -49,7 +49,7 @@ def make_doc(rng):
 
 
 def generate(rng, tier):
-    ndefs = 12 if tier == "quick" else 2000
+    ndefs = 30 if tier == "quick" else 2000
     made = 0
     attempts = 0
     while made < ndefs and attempts < ndefs * 3:
